@@ -53,6 +53,42 @@ def r10_samples_paired(ctx):
     r1_direction_wrapper(ctx)
 
 
+def r12_guess_from_the_curve(ctx):
+    """When no initial parameters are stored, they are guessed *from the
+    curve* (contact point from the point-of-contact estimate, ancillaries):
+    the dataset is handed down on every hop of that chain.  Without it the
+    guess falls back to the model defaults (contact point 0), which for a
+    curve whose tip position is not offset-corrected lies outside the data -
+    the gradient vanishes and the 'fit' returns the defaults with
+    success=True."""
+    from ..astutil import bound_args, call_name, calls_in, norm
+    fitm = ctx.repo.mod("fit")
+    hops = [("IndentationFitter.__init__", "get_initial_parameters",
+             "IndentationFitter.get_initial_parameters", "idnt", "idnt"),
+            ("IndentationFitter.get_initial_parameters",
+             "guess_initial_parameters", "guess_initial_parameters",
+             "idnt", "idnt")]
+    n = 0
+    for caller, cname, callee, par, want in hops:
+        f = fitm.func(caller)
+        g = fitm.func(callee)
+        ctx.analysed(f)
+        for c in calls_in(f):
+            if (call_name(c) or "").split(".")[-1] != cname:
+                continue
+            n += 1
+            b = bound_args(c, g)
+            got = norm(b[par]) if par in b else None
+            ctx.check(got == want, c, f"{caller}: {cname}({par}={got})",
+                      f"{caller} calls {cname}() with {par}={got}: the "
+                      "curve is not handed on, so the initial parameters "
+                      "are the model defaults instead of a guess from the "
+                      "data (contact point 0 - outside the data of a curve "
+                      "that is not offset-corrected; the optimiser then "
+                      "returns the defaults and reports success)")
+    ctx.floor("hops of the initial-parameter guess", n, 2)
+
+
 RULES = [
     ("C01-R1", "a supplied initial guess reaches the optimiser",
      fitclauses.clause_guess_delivery),
@@ -78,4 +114,7 @@ RULES = [
     ("C01-R8", "every keyword of a fit request is stored as given and the "
      "optimisation runs whenever no current result exists",
      r8_request_reaches_fit),
+    ("C01-R12", "initial parameters that are not stored are guessed from "
+     "the curve (the dataset reaches guess_initial_parameters)",
+     r12_guess_from_the_curve),
 ]
